@@ -81,7 +81,7 @@ func shrink(h *history, key string) *history {
 	// halve sizes
 	sizeArg := map[string]int{"alloc": 1, "allocn": 2, "cbuf": 2, "cimg": 3, "rbuf": 1, "rimg": 2}
 	for pass := 0; pass < 3 && budget > 0; pass++ {
-		for i := range ops {
+		for i := 0; i < len(ops); i++ {
 			idx, ok := sizeArg[ops[i].Name]
 			if !ok || ops[i].Args[idx] < 2 {
 				continue
